@@ -10,7 +10,13 @@ package c17
 import (
 	"fmt"
 	"strings"
+	"sync"
 	"testing"
+	"time"
+
+	"github.com/cnotch/ipchub/media"
+	"verif/harness/lib/mediah"
+	"verif/harness/lib/rtppack/esgen"
 
 	"github.com/cnotch/ipchub/provider/route"
 	"pgregory.net/rapid"
@@ -23,7 +29,7 @@ func TestMain(m *testing.M) { evid.Main(m, "C17") }
 // memory provider: an empty table, nothing persisted
 type nullProvider struct{}
 
-func (nullProvider) LoadAll() ([]*route.Route, error)            { return nil, nil }
+func (nullProvider) LoadAll() ([]*route.Route, error)                { return nil, nil }
 func (nullProvider) Flush(full, saves, removes []*route.Route) error { return nil }
 
 var segs = []string{"a", "b", "ab"}
@@ -87,6 +93,9 @@ func requestPaths() []string {
 		cur = next
 	}
 	out = append(out, "/", "", "A/B", " /a/b ", "/a//b", "/a/./b", "/a/x/../b", "/A/B/AB", "a/b/ab/a")
+	// spellings that do not END in '/' as written but whose canonical form does (trailing
+	// blank, trailing dot segments): they resolve to nothing, like any path ending in '/'
+	out = append(out, "/a/ ", " /a/b/ ", "/a/\t", "/a/b/..", "/a/b/../", "/a/./", "/a/b/x/../ ", " ", "/a/..", "/ab/ ", "/a/b/ab/..")
 	return out
 }
 
@@ -209,4 +218,153 @@ func TestReferenceAnchors(t *testing.T) {
 		t.Fatal("a path ending in '/' must resolve to nothing")
 	}
 	evid.Eval(15)
+}
+
+// ---------------------------------------------------------------- end to end through media.GetOrCreate
+
+// stubFactory stands in for the RTSP pull client: it "pulls" instantly (or after
+// a gate, to keep several pulls in flight at once) and publishes the stream
+// under the local path it was given, recording what it was asked for.
+type stubFactory struct {
+	mu     sync.Mutex
+	calls  []stubCall
+	gate   chan struct{} // non-nil: Create waits for it (bounded) before publishing
+	inside int
+}
+
+type stubCall struct{ Local, Remote string }
+
+func (f *stubFactory) Can(remoteURL string) bool { return strings.HasPrefix(remoteURL, "stub://") }
+
+func (f *stubFactory) Create(localPath, remoteURL string) (*media.Stream, error) {
+	f.mu.Lock()
+	f.calls = append(f.calls, stubCall{localPath, remoteURL})
+	f.inside++
+	g := f.gate
+	f.mu.Unlock()
+	if g != nil {
+		select {
+		case <-g:
+		case <-time.After(300 * time.Millisecond):
+		}
+	}
+	s := media.NewStream(localPath, mediah.SDP(esgen.H265, false))
+	media.Regist(s)
+	return s, nil
+}
+
+var stub = &stubFactory{}
+var stubOnce sync.Once
+
+// "…and the pulled stream is published under the requested path": for generated
+// route tables (including alias routes: several patterns whose targets resolve to
+// the SAME upstream URL) requests go through media.GetOrCreate, sequentially and
+// two at a time while both pulls are in flight; the stream each request returns
+// must be published under ITS canonical request path, the upstream URL the
+// factory was asked for must be the reference resolver's, and lookup must return
+// that very stream afterwards.
+func TestPulledStreamIsPublishedUnderRequestedPath(t *testing.T) {
+	stubOnce.Do(func() { media.RegistPullStreamFactory(stub) })
+	evid.Checks(400, 6000)
+	rapid.Check(t, func(t *rapid.T) {
+		route.Reset(nullProvider{})
+		media.UnregistAll()
+		defer media.UnregistAll()
+		model := &refmodel.RouteTable{}
+		upstreams := []string{"stub://nvr/live/", "stub://nvr/live", "stub://cam/x", "stub://cam/x/"}
+		for i, n := 0, rapid.IntRange(1, 4).Draw(t, "routes"); i < n; i++ {
+			pat := "/" + rapid.SampledFrom([]string{"east", "west", "e/w", "north"}).Draw(t, "dir") + "/"
+			u := rapid.SampledFrom(upstreams).Draw(t, "upstream")
+			if i > 0 && rapid.IntRange(0, 9).Draw(t, "alias") < 6 {
+				// an alias: the same upstream as the first route, with or without trailing slash
+				u = strings.TrimSuffix(model.Rows[0].URL, "/")
+				if rapid.Bool().Draw(t, "aliasSlash") {
+					u += "/"
+				}
+			}
+			route.Save(&route.Route{Pattern: pat, URL: u, KeepAlive: true})
+			model.Save(pat, u, true)
+		}
+		reqGen := rapid.Custom(func(t *rapid.T) string {
+			r := model.Rows[rapid.IntRange(0, len(model.Rows)-1).Draw(t, "row")]
+			p := r.Pattern + rapid.SampledFrom([]string{"door", "door", "yard/cam1", "a"}).Draw(t, "leaf")
+			switch rapid.IntRange(0, 4).Draw(t, "spell") {
+			case 0:
+				p = strings.ToUpper(p)
+			case 1:
+				p = " " + p + " "
+			}
+			return p
+		})
+		concurrent := rapid.Bool().Draw(t, "concurrent")
+		reqs := []string{reqGen.Draw(t, "req1"), reqGen.Draw(t, "req2")}
+		stub.mu.Lock()
+		stub.calls, stub.inside, stub.gate = nil, 0, nil
+		if concurrent {
+			stub.gate = make(chan struct{})
+		}
+		gate := stub.gate
+		stub.mu.Unlock()
+		got := make([]*media.Stream, len(reqs))
+		if concurrent && refmodel.Canon(reqs[0]) != refmodel.Canon(reqs[1]) {
+			var wg sync.WaitGroup
+			for i := range reqs {
+				wg.Add(1)
+				go func(i int) { defer wg.Done(); got[i] = media.GetOrCreate(reqs[i]) }(i)
+			}
+			// release the pulls once both are in flight (or after the factory's own bound)
+			mediah.WaitFor(200*time.Millisecond, func() bool { stub.mu.Lock(); defer stub.mu.Unlock(); return stub.inside >= 2 })
+			close(gate)
+			wg.Wait()
+			evid.Class("two requests with both pulls in flight")
+		} else {
+			if gate != nil {
+				close(gate)
+			}
+			for i := range reqs {
+				got[i] = media.GetOrCreate(reqs[i])
+			}
+			evid.Class("sequential requests")
+		}
+		evid.Eval(1)
+		detail := map[string]any{"routes": fmt.Sprint(model.Rows), "requests": reqs, "concurrent": concurrent}
+		sameUpstream := false
+		for i, rq := range reqs {
+			want, ok := model.Match(rq)
+			if !ok {
+				t.Fatalf("harness: request %q does not resolve in the model", rq)
+			}
+			if got[i] == nil {
+				evid.Violation(t, "pull-missing", detail, "GetOrCreate(%q) returned nothing although route %+v resolves it", rq, want)
+			}
+			if got[i].Path() != want.Pattern {
+				evid.Violation(t, "published-under-wrong-path", detail, "GetOrCreate(%q) returned a stream published under %q, the requested canonical path is %q", rq, got[i].Path(), want.Pattern)
+			}
+			if media.Get(rq) != got[i] {
+				evid.Violation(t, "lookup-after-pull", detail, "after GetOrCreate(%q) lookup of the same path does not return that stream", rq)
+			}
+			found := false
+			stub.mu.Lock()
+			for _, c := range stub.calls {
+				if c.Local == want.Pattern && c.Remote == want.URL {
+					found = true
+				}
+			}
+			stub.mu.Unlock()
+			if !found {
+				evid.Violation(t, "upstream-url", detail, "for %q the pull factory was never asked for (%q, %q); calls: %+v", rq, want.Pattern, want.URL, stub.calls)
+			}
+			if i == 1 {
+				w0, _ := model.Match(reqs[0])
+				if w0.URL == want.URL && w0.Pattern != want.Pattern {
+					sameUpstream = true
+				}
+			}
+		}
+		if sameUpstream {
+			evid.Class("two different request paths resolving to the same upstream URL")
+			evid.Nontrivial(evid.FP("alias", fmt.Sprint(model.Rows), fmt.Sprint(reqs), concurrent))
+			evid.Sample("alias", detail)
+		}
+	})
 }
